@@ -213,3 +213,41 @@ def _pers_hist(prog):
 
 # canaries/engine: a bound widened to the training inputs kept in a plain attribute (bad) / in a persistent buffer (good)
 canary.register("C15", "engine", _pers_hist, "PERS-HIST")
+
+
+def _mk(rule_import, attrs):
+    def run(prog):
+        mod, name = rule_import
+        import importlib
+
+        rule = getattr(importlib.import_module(mod, __package__), name)
+
+        class Ctx:
+            p = prog
+            tier = "quick"
+
+        for k, v in attrs.items():
+            setattr(Ctx, k, v)
+        r = rule(Ctx())
+        out = []
+        for x in r if isinstance(r, list) else [r]:
+            out.extend(x.findings)
+        return out
+
+    return run
+
+
+# canaries/engine: a sub-network switched to eval() and left in train() (bad) / put back to the mode found (good)
+for _p in ("C12", "C13", "C14"):
+    canary.register(_p, "engine", _mk((".rules.shared_rules", "mode_keep_rule"), {"mode_keep_floor": 5}), "MODE-KEEP")
+# canaries/engine: a module-level grid table keyed by the size only (bad) / by size, dtype and device (good)
+for _p in ("C09", "C17", "C13", "C20"):
+    canary.register(_p, "engine", _mk((".rules.shared_rules", "shared_state_rule"), {"shared_floor": 5}), "SHARED-STATE")
+# canaries/engine: torch.normal(mean, std) (bad) / mean + randn (good)
+canary.register("C16", "engine", _mk((".rules.c16", "grad_reparam_rule"), {"reparam_floor": 5}), "GRAD-REPARAM")
+# canaries/engine: a clip at finfo(dtype).eps (bad) / at 1e-6, finfo only compared against in a guard (good)
+canary.register("C19", "engine", _mk((".rules.c19", "dt_finfo_rule"), {"finfo_floor": 5}), "DT-FINFO")
+# canaries/engine: a load hook that overwrites the saved flag (bad) / fills it only when that key is absent (good)
+canary.register("C15", "engine", _mk((".rules.c15", "pers_load_rule"), {}), "PERS-LOAD")
+# canaries/engine: a mixture whose sample_and_log_prob scores the drawn component (bad) / marginalises it (good)
+canary.register("C04", "engine", _mk((".rules.flow_rules", "slp_latent_rule"), {"slp_latent_floor": 1}), "SLP-LATENT")
